@@ -30,7 +30,7 @@ from props import C03 as c3
 ID = 'C09'
 COQ_MODEL = 'model.History'
 COQ_CORR = 'corr_C09'
-N_QUICK = 200
+N_QUICK = 150
 N_THOROUGH = 700
 VM_CASES = 25
 RULE = ('cases = corpus + random histories of 1..8 requests on one application (outcome classes: handler programs of '
@@ -53,8 +53,8 @@ TRUSTED = [
 ASSUMPTIONS = ['one worker thread per history (threads: C08)', 'handlers keep no state of their own',
                'custom error handlers do not mutate the shared errors_map instances']
 
-MAX_BODY = 400          # config.max_body_size of the generated applications
-MEMFILE = 200           # config.max_memfile_size (also the in-memory budget of multipart fields)
+MAX_BODY = 1200         # config.max_body_size of the generated applications
+MEMFILE = 600           # config.max_memfile_size (also the in-memory budget of multipart fields)
 INT_LIMIT_PATH = '/n/' + '9' * 4301     # int() refuses more than 4300 digits: the int filter raises inside the router
 SHARED = [  # DefaultConfig.errors_map in source order: (index, status, body)
     (0, 400, 'Bad request'),
@@ -142,6 +142,12 @@ def make_environ(req, streams):
         env['CONTENT_LENGTH'] = str(req.get('cl', len(body)))
     if req.get('cookie'):
         env['HTTP_COOKIE'] = 'c=' + req['cookie']
+    if req.get('xcustom'):
+        env['HTTP_X_CUSTOM'] = req['xcustom']
+    if req.get('remote'):
+        env['REMOTE_ADDR'] = req['remote']
+    if req.get('xhr'):
+        env['HTTP_X_REQUESTED_WITH'] = 'XMLHttpRequest'
     if case['json']:
         env['HTTP_ACCEPT'] = 'application/json'
     if case['fw']:
@@ -219,7 +225,12 @@ def build_app(case, rec_box):
             rec_box[0].ev.append([tag, idx] if idx is not None else [tag])
             if h.get('special') == 'echo':
                 rq = app.request
-                return '%s %s %s %s' % (rq.method, rq.path, rq.query_string, rq.get_cookie('c'))
+                # what a handler can read about its own request, through the cached / parsed accessors too
+                return '%s %s %s %s|%s|%s|%s|%s|%s|%s' % (
+                    rq.method, rq.path, rq.query_string, rq.get_cookie('c'),
+                    ','.join('%s=%s' % (k, rq.query[k]) for k in sorted(rq.query.keys())),
+                    rq.headers.get('X-Custom', '-'), rq.remote_addr, rq.url, rq.is_xhr,
+                    ','.join(sorted(rq.params.keys())))
             if h.get('special') == 'body':
                 return str(len(app.request.body.read()))
             if h.get('special') == 'json':
@@ -480,8 +491,14 @@ def model_case(req):
         h = rt['h']
         reached = not any(c3.fails(x) for x in case['before']) and not any(c3.fails(x) for x in rt['rhooks'])
         if h['special'] == 'echo':
+            from urllib.parse import parse_qsl
             ck = req.get('cookie') or None
-            text = '%s %s %s %s' % (case['method'].upper(), req_path(case), req.get('qs', ''), ck)
+            qs = req.get('qs', '')
+            q = dict(parse_qsl(qs, keep_blank_values=True))
+            url = 'http://localhost' + quote(req_path(case)) + ('?' + qs if qs else '')
+            text = '%s %s %s %s|%s|%s|%s|%s|%s|%s' % (
+                case['method'].upper(), req_path(case), qs, ck, ','.join('%s=%s' % (k, q[k]) for k in sorted(q)),
+                req.get('xcustom') or '-', req.get('remote') or None, url, bool(req.get('xhr')), ','.join(sorted(q)))
             res = dict(k='ret', o=dict(k='str', s=text))
         else:
             outcome = BODY_OUTCOME[req['body_class']]
@@ -699,7 +716,9 @@ def body_request(rng, rid, cls, secret=None):
 
 def g_request(rng, rid):
     r = rng.random()
-    req = dict(id=rid, qs=rng.choice(['', '', 'a=1', 'q=<x>&y=%22']), cookie=rng.choice(['', '', 'v1', 'zz']))
+    req = dict(id=rid, qs=rng.choice(['', '', 'a=1', 'q=<x>&y=%22', 'a=2&b=']), cookie=rng.choice(['', '', 'v1', 'zz']),
+               xcustom=rng.choice(['', 'c%d' % rid]), remote=rng.choice(['', '10.0.0.%d' % (rid % 250)]),
+               xhr=rng.random() < 0.3)
     if r < 0.12:
         req.update({'class': 'badpath', 'bad': rng.choice(['utf8', 'latin1', 'trunc']),
                     'case': plain(dict(k='falsy', v='none'), method=rng.choice(['GET', 'HEAD', 'POST']),
@@ -956,6 +975,11 @@ API_SURFACE = [
     ('status phrases of unlisted codes (module-level _HTTP_STATUS_LINES)', 'covered by custom-phrase/number histories'),
     ('error_render._html_lns (module cache)', 'covered: HTML error pages in every position of a history and in the fresh process'),
     ('filter_factory._filter_cache', 'excluded: holds compiled filters keyed by rule text only (C01)'),
+    ('request accessors (query, params, headers, get_cookie, remote_addr, url, is_xhr)', 'covered by the echo handler with '
+     'per-request values'),
+    ('request.files / FileUpload (content_type, headers, get_header, raw_filename, file)', 'covered by upload requests whose '
+     'parts carry optional headers or not, echoed by the handler'),
+    ('header values of non-str types equal across requests (1 / 1.0 / True, 0 / 0.0 / False)', 'covered by typed-value histories'),
     ('wsgi.input short reads', 'covered by short= on body requests (framing itself is C04/C05)'),
     ('other applications in the process', 'covered by other_app (responses must not change; exact retention ownership masked)'),
     ('threads', 'excluded: C08; the fresh baseline runs on a fresh thread of a fresh process'),
